@@ -518,7 +518,8 @@ class _CRTFCoordinateParser:
                         '"': u.arcsec,
                         "'": u.arcmin}
 
-        regex_str = re.compile(r'([0-9+,-.]*)(.*)')
+        # a number (possibly in exponent notation) followed by its unit
+        regex_str = re.compile(r'([0-9+,-.]*(?:[eE][+-]?[0-9]+)?)(.*)')
         restr = regex_str.search(string_rep)
         unit = restr.group(2)
         if unit:
